@@ -189,41 +189,55 @@ def stickyFieldInstrs (prev row : WRow) : List WInstr :=
 def WRow.cleared (row : WRow) : WRow :=
   { row with discriminator := 0, basicBlock := false, prologueEnd := false, epilogueBegin := false }
 
+/-- `special_default = special_base.wrapping_sub(line_base)` with `line_base` sign-extended to
+`u64`: the special opcode for a line advance of 0 and an operation advance of 0 -/
+def specialDefault (e : Enc) : Nat := (opcodeBase + 2 ^ 64 - Leb.ofI64 e.lineBase) % 2 ^ 64
+
+/-- the `if line_advance != 0 { … }` block of `generate_row`:
+(`special`, `use_special`, instructions pushed) -/
+def linePart (e : Enc) (la : Int) : Nat × Bool × List WInstr :=
+  -- `(line_advance as u64).wrapping_sub(line_base)`
+  let specialLine := (Leb.ofI64 la + 2 ^ 64 - Leb.ofI64 e.lineBase) % 2 ^ 64
+  if la ≠ 0 then
+    if specialLine < e.lineRange then (opcodeBase + specialLine, true, [])
+    else (specialDefault e, false, [.advanceLine la])
+  else (specialDefault e, false, [])
+
+/-- the `if op_advance != 0 { … }` block of `generate_row`: new (`special`, `use_special`) and the
+instructions pushed -/
+def opPart (m : Mode) (e : Enc) (special : Nat) (useSpecial : Bool) (oa : Nat) :
+    Out (Nat × Bool × List WInstr) :=
+  if oa ≠ 0 then do
+    -- "Using ConstAddPc can save a byte."
+    let (sop, cap) ← (
+      if (specialFor special e.lineRange oa).isSome then (.ok (oa, false) : Out (Nat × Bool))
+      else
+        if e.lineRange = 0 then .panic "attempt to divide by zero"
+        else do
+          let opRange := (255 - opcodeBase) / e.lineRange
+          let s ← subM m oa opRange
+          pure (s, true))
+    match specialFor special e.lineRange sop with
+    | some s => pure (s, true, if cap then [WInstr.constAddPc] else [])
+    | none => pure (special, useSpecial, [WInstr.advancePc oa])
+  else pure (special, useSpecial, [])
+
+/-- the final `if use_special && special != special_default { … } else { Copy }` of `generate_row`;
+`special as u8` truncates in release builds, the two `debug_assert!`s fire in debug builds -/
+def finalPart (m : Mode) (e : Enc) (special : Nat) (useSpecial : Bool) : Out WInstr :=
+  if useSpecial ∧ special ≠ specialDefault e then
+    if m = .debug ∧ special < opcodeBase then .panic "assertion failed: special >= special_base"
+    else if m = .debug ∧ special > 255 then .panic "assertion failed: special <= 255"
+    else .ok (.special (special % 256))
+  else .ok .copy
+
 /-- the "advance the line, address and operation index" part of `generate_row`: the
 instructions pushed for a line advance `la` and an operation advance `oa` -/
 def advanceInstrs (m : Mode) (e : Enc) (la : Int) (oa : Nat) : Out (List WInstr) := do
-  let lineBase := Leb.ofI64 e.lineBase            -- `i64::from(line_base) as u64`
-  let lineRange := e.lineRange
-  let specialBase := opcodeBase
-  let specialDefault := (specialBase + 2 ^ 64 - lineBase) % 2 ^ 64   -- `wrapping_sub`
-  -- line
-  let specialLine := (Leb.ofI64 la + 2 ^ 64 - lineBase) % 2 ^ 64
-  let (special, useSpecial, lineIs) : Nat × Bool × List WInstr :=
-    if la ≠ 0 then
-      if specialLine < lineRange then (specialBase + specialLine, true, [])
-      else (specialDefault, false, [.advanceLine la])
-    else (specialDefault, false, [])
-  -- operation pointer
-  let (special, useSpecial, opIs) ← (
-    if oa ≠ 0 then do
-      let (sop, cap) ← (
-        if (specialFor special lineRange oa).isSome then (.ok (oa, false) : Out (Nat × Bool))
-        else
-          if lineRange = 0 then .panic "attempt to divide by zero"
-          else do
-            let opRange := (255 - specialBase) / lineRange
-            let s ← subM m oa opRange
-            pure (s, true))
-      match specialFor special lineRange sop with
-      | some s => pure (s, true, if cap then [WInstr.constAddPc] else [])
-      | none => pure (special, useSpecial, [WInstr.advancePc oa])
-    else pure (special, useSpecial, []) : Out (Nat × Bool × List WInstr))
-  -- the row itself
-  if useSpecial ∧ special ≠ specialDefault then
-    if m = .debug ∧ special < specialBase then .panic "assertion failed: special >= special_base"
-    else if m = .debug ∧ special > 255 then .panic "assertion failed: special <= 255"
-    else pure (lineIs ++ opIs ++ [.special (special % 256)])      -- `special as u8`
-  else pure (lineIs ++ opIs ++ [.copy])
+  let (special, useSpecial, lineIs) := linePart e la
+  let (special, useSpecial, opIs) ← opPart m e special useSpecial oa
+  let fin ← finalPart m e special useSpecial
+  pure (lineIs ++ opIs ++ [fin])
 
 /-- `LineProgram::generate_row`: the instructions pushed, and the new `self.row` = `self.prev_row` -/
 def generateRow (m : Mode) (e : Enc) (prev row : WRow) : Out (List WInstr × WRow) := do
